@@ -277,6 +277,13 @@ class Context:
             if proto is NULL or proto is None:
                 obj._prototype = None
             elif isinstance(proto, JSObject):
+                cur = proto
+                while cur is not None:
+                    if cur is obj:
+                        from .errors import JSTypeError
+
+                        raise JSTypeError("Cyclic __proto__ value")
+                    cur = getattr(cur, "_prototype", None)
                 obj._prototype = proto
             return obj
 
